@@ -214,7 +214,7 @@ fn gen_offer(rng: &mut Rng) -> DescSpec {
     for s in &mut d.sections {
         if matches!(s.kind, MediaKind::Audio | MediaKind::Video) && rng.chance(1, 12) {
             match rng.below(3) {
-                0 => s.extra.push("extmap".into()),
+                0 => { let k = rng.below(s.extmaps.len() as u64 + 1) as usize; s.extmaps.insert(k, (String::new(), String::new())); }
                 1 => { s.extmaps.retain(|e| e.0 != "3"); s.extmaps.insert(0, ("3/recvonly".into(), URI_ABS_SEND_TIME.to_string())); }
                 _ => { s.extmaps.retain(|e| e.0 != "13"); s.extmaps.insert(0, ("13".into(), format!("{URI_SDES_MID}-x"))); }
             }
@@ -767,6 +767,24 @@ pub fn run(args: &Args) {
         round_trip_text(&mut run, &format!("mal:{}:{}", args.seed, i), "malformed", &text);
     }
     run.count_n("malformed_texts", nm);
+    // (3b) two faults at chosen positions: a line without `=` at every position × a faulty v= / o= / t= / m= line — the parser
+    // reports the FIRST faulty line
+    {
+        let lines: Vec<String> = base.split("\r\n").filter(|l| !l.is_empty()).map(|s| s.to_string()).collect();
+        let mut n2 = 0;
+        for k in 0..lines.len() {
+            for (prefix, bad) in [("v=", "v=x"), ("o=", "o=a b c"), ("t=", "t=a b"), ("m=", "m=audio 65536 RTP/AVP 0"), ("m=", "m=text 9 RTP/AVP 0")] {
+                let mut ls = lines.clone();
+                let Some(j) = (if prefix == "m=" { ls.iter().rposition(|l| l.starts_with(prefix)) } else { ls.iter().position(|l| l.starts_with(prefix)) }) else { continue };
+                if j == k { continue; }
+                ls[j] = bad.to_string();
+                ls[k] = "x".to_string();
+                round_trip_text(&mut run, &format!("mal2:{k}:{j}:{}", &bad[..3]), "malformed", &(ls.join("\r\n") + "\r\n"));
+                n2 += 1;
+            }
+        }
+        run.count_n("malformed_two_fault_texts", n2);
+    }
     // (4) primitives / helper functions
     prim_streams(&mut run, &mut rng, if args.tier_thorough { 5000 } else { 500 });
     run.finish();
